@@ -1363,6 +1363,14 @@ static void section_uri( bool thorough, unsigned seed )
       uri_all( std::string( "http://" ) + w + "/p?q#f" );
       uri_all( std::string( "//" ) + w + ":80" );
    }
+   // what may follow a host that starts like an IPv4 address: every class of the authority / path alphabet
+   for( const char* f : { "%41", "%7e", "%7E.x", "%", "%4", "%4g", "x", "-", ".", ".5", "~", "_", "!", "$", "&", "'", "(", ")", "*", "+", ",", ";", "=", ":", ":8", "/", "?", "#", "@", "@h", "[", "]", " ", "\x7f", "%41%42", "a%41" } ) {
+      for( const char* h : { "1.2.3.4", "255.255.255.255", "0.0.0.0", "1.2.3.256" } ) {
+         uri_all( std::string( "//" ) + h + f );
+         uri_all( std::string( "http://" ) + h + f + "/p" );
+         uri_all( std::string( "x://u@" ) + h + f );
+      }
+   }
    // IPv6: every shape -- l groups, optional "::", r groups, optional embedded IPv4 -- with group lengths 1 / 4 / 5
    const std::vector< std::string > grp = { "1", "ffff", "0a0B", "12345", "g", "" };
    for( int l = 0; l <= 8; ++l ) {
